@@ -121,6 +121,8 @@ namespace embedded_pairing::wkdibe {
                         qualified.a0.add(qualified.a0, temp);
                         x++;
                     }
+                } else if (x != sk.l && sk.b[x].idx == i) {
+                    x++;
                 }
                 k++;
             } else if (x != sk.l && sk.b[x].idx == i) {
